@@ -22,7 +22,7 @@ ASSUMPTIONS = ['the generator is a pure function of the case once both global RN
 
 
 def budget(tier):
-    return 8000 if tier == 'quick' else 80000
+    return 8000 if tier == 'quick' else 250000
 
 
 @st.composite
